@@ -81,6 +81,7 @@ class Panoptica_Aggregator:
             ), f"You gave the extension {extension}, but currently only .tsv is supported. Either delete it or give .tsv as extension"
         else:
             out_file_path += ".tsv"  # add extension
+            output_file = Path(out_file_path)
 
         out_buffer_file: Path = Path(out_file_path).parent.joinpath(
             Path(out_file_path).stem + "_panoptica_aggregator_tmp.tsv"
